@@ -132,7 +132,7 @@ pub fn run(args: &Args) -> i32 {
     let mut stop = false;
     // the Ecm selector keeps building prime tables for later ecm() levels after an abort (about 4 s
     // per aborted run): fewer inputs and flip points for it in the quick tier
-    let ecm_shapes = ["b64", "b82", "t90", "u100", "b120", "t130"];
+    let ecm_shapes: &[&str] = if thorough { &["b64", "b82", "t90", "u100", "b120", "t130"] } else { &["b70", "u100"] };
     for (name, bits) in shapes.iter() {
         let inp = make_input(&mut pool, &format!("{}-s{}", name, seed), bits);
         for sel in selectors {
@@ -167,7 +167,7 @@ pub fn run(args: &Args) -> i32 {
                 // stage boundaries: poll indices at which the loop of the poll changes
                 let mut ks: Vec<usize> = vec![];
                 if sel == "Ecm" && !thorough {
-                    ks.extend([0, 1, 2, n_polls / 2, n_polls.saturating_sub(1), n_polls]);
+                    ks.extend([0, 1, n_polls / 2, n_polls]);
                 } else if n_polls <= kmax_all {
                     ks.extend(0..=n_polls);
                 } else {
